@@ -33,6 +33,7 @@ class Ctx:
         self.obligations = 0     # final solver obligations discharged on this path
         self.notes = []
         self.depth = 0
+        self.statics = {}        # (crate, static name) -> reference to its per-path value
 
     # ---- symbolic inputs ----
     def fresh(self, name, bits, signed=False):
@@ -195,6 +196,7 @@ BUILTIN_ENUMS = {
 }
 ORDERING = {'Less': -1, 'Equal': 0, 'Greater': 1}
 RETURN = 'return'
+GENERIC_RECV = re.compile(r'^<[A-Z]\w? as ')
 
 
 def ordering(k):
@@ -432,6 +434,23 @@ class Interp:
             elif sg: v = BV(((1 << (b - 1)) - 1) if mnum.group(2) == 'MAX' else (1 << (b - 1)), b, True)
             else: v = BV(((1 << b) - 1) if mnum.group(2) == 'MAX' else 0, b)
             return lambda ctx, fr: v
+        mal = re.match(r'^\{alloc(\d+): (.*)\}$', body)
+        if mal:
+            aid = int(mal.group(1)); crate0 = fn.crate
+            def op_static(ctx, fr):
+                name = self.crates[crate0].mir.statics.get(aid)
+                if name is None: raise Unsupported('constant allocation ' + body)
+                key = (crate0, name)
+                if key not in ctx.statics:
+                    fl = self.crates[crate0].mir.fns.get(name)
+                    if not fl: raise Unsupported('static without MIR body: ' + name)
+                    ctx.statics[key] = ValRef(self.call_fn(ctx, fl[0], []))
+                return ctx.statics[key]
+            return op_static
+        msz = re.match(r'^<.* as (std::mem::|core::mem::)?SizedTypeProperties>::(ALIGN|SIZE|IS_ZST)$', body)
+        if msz:
+            v = False if msz.group(2) == 'IS_ZST' else BV(1, 64)
+            return lambda ctx, fr: v
         if body == 'char::MAX':
             return lambda ctx, fr: BV(0x10FFFF, 32)
         crate = fn.crate
@@ -627,7 +646,11 @@ class Interp:
                 return lambda ctx, fr: self.cast_int(f(ctx, fr), ty)
             if kind in ('PointerCoercion', 'PtrToPtr', 'Transmute', 'PointerExposeProvenance', 'PointerWithExposedProvenance', 'FnPtrToPtr'):
                 if kind == 'Transmute' and ty in INT_BITS:
-                    return lambda ctx, fr: self.cast_int(f(ctx, fr), ty)
+                    def r_addr(ctx, fr):
+                        v = f(ctx, fr)
+                        if isinstance(v, BV) or is_bool(v): return self.cast_int(v, ty)
+                        return BV(0x1000, INT_BITS[ty])      # address of a live object: non-null, page aligned (only used by rustc's debug pointer checks)
+                    return r_addr
                 return f
             if kind in ('IntToFloat', 'FloatToInt', 'FloatToFloat'):
                 def r_f(ctx, fr):
@@ -850,6 +873,11 @@ class Interp:
         if key.startswith('<Self as ') and args:
             a0 = deref(args[0])
             if isinstance(a0, Agg): key = '<' + a0.name + key[5:]
+        elif key[0] == '<' and args and GENERIC_RECV.match(key):
+            a0 = deref(args[0])
+            if isinstance(a0, Agg) and a0.vidx is None or isinstance(a0, Agg) and a0.name not in ('Option', 'Result', 'tuple'):
+                k2 = '<' + a0.name + key[key.index(' as '):]
+                if self.resolve_static(crate, k2) is not None and self.resolve_static(crate, k2)[0] == 'fn': key = k2
         tgt = self.resolve_static(crate, key)
         if tgt is None:
             raise Unsupported('no model or MIR for call ' + key)
@@ -943,6 +971,11 @@ class Interp:
                 return None
             d = info.trait_defaults.get((trait, meth))
             if d and (last_seg(ty), ) and self._type_known(info, last_seg(ty)): return self._pick(info, [d])
+            if re.fullmatch(r'[A-Z]\w*', ty) and not self._type_known(info, ty):
+                # a generic type parameter: the instantiation is not in the (polymorphic) MIR; decidable only
+                # when the crate has exactly one implementation of that trait method
+                allc = [v for (t, tr, me), v in info.trait_impls.items() if tr == trait and me == meth]
+                if len(allc) == 1 and len(allc[0]) == 1: return self._pick(info, [allc[0][0][3]])
             return None
         if strict_type_only and '::' not in key: return None
         segs = key.split('::')
